@@ -6,6 +6,9 @@ From EP Require Import Base.Bytes Roundtrip.Common Roundtrip.Spec Roundtrip.Spec
 From EP Require Roundtrip.Macsec Roundtrip.MacsecProofs.
 From EP Require Roundtrip.Auth Roundtrip.AuthProofs Roundtrip.RawExt Roundtrip.RawExtProofs.
 From EP Require Roundtrip.Ipv6 Roundtrip.Ipv6Proofs.
+From EP Require Roundtrip.Eth Roundtrip.EthProofs Roundtrip.Vlan Roundtrip.VlanProofs.
+From EP Require Roundtrip.Sll Roundtrip.SllProofs Roundtrip.Arp Roundtrip.ArpProofs.
+From EP Require Roundtrip.Exts4 Roundtrip.Exts4Proofs.
 Local Open Scope N_scope.
 
 (* ------------------------------------------------------------------ MacsecHeader *)
@@ -220,3 +223,251 @@ Example C08_Ipv6_ex_dec :
   ip6_from_slice ([106; 81; 35; 69; 0; 8; 17; 64] ++ repeat 1 16 ++ repeat 2 16 ++ [9]) = Ok (ex_mid, [9]).
 Proof. vm_compute. reflexivity. Qed.
 End IPV6.
+
+(* ------------------------------------------------------------------ Ethernet2Header *)
+Module ETH.
+Import Roundtrip.Eth Roundtrip.EthProofs.
+
+(* to_bytes = write = write_to_slice (any slice of >= 14 bytes; the bytes behind the header are
+   untouched and returned as the rest; shorter slices are refused); 14 bytes *)
+Theorem C08_Eth_ser_agree : forall h out slice, wf_eth h = true ->
+  eth_write out h = out ++ eth_to_bytes h /\ len (eth_to_bytes h) = eth_header_len h
+  /\ (14 <= len slice -> eth_write_to_slice slice h = Ok (eth_to_bytes h ++ drop 14 slice, drop 14 slice))
+  /\ (len slice < 14 -> eth_write_to_slice slice h = Err ELen).
+Proof. exact eth_ser_agree. Qed.
+Print Assumptions C08_Eth_ser_agree.
+
+Theorem C08_Eth_dec_enc : forall h rest, wf_eth h = true ->
+  eth_from_slice (eth_to_bytes h ++ rest) = Ok (h, rest) /\ eth_read (eth_to_bytes h ++ rest) = Ok (h, rest)
+  /\ eth_from_bytes (eth_to_bytes h) = Ok h.
+Proof. exact eth_dec_enc. Qed.
+Print Assumptions C08_Eth_dec_enc.
+
+Theorem C08_Eth_enc_dec : forall bs h rest, bytes_ok bs -> eth_from_slice bs = Ok (h, rest) ->
+  wf_eth h = true /\ bs = eth_to_bytes h ++ rest /\ len (eth_to_bytes h) = 14
+  /\ eth_from_slice (eth_to_bytes h) = Ok (h, []).
+Proof. exact eth_enc_dec. Qed.
+Print Assumptions C08_Eth_enc_dec.
+
+Theorem C08_Eth_spec : forall h,
+  eth_to_bytes h = eth_layout (eth_destination h) (eth_source h) (eth_ether_type h).
+Proof. exact eth_spec. Qed.
+Print Assumptions C08_Eth_spec.
+
+Definition ex1 : Ethernet2Header :=
+  {| eth_source := [1; 2; 3; 4; 5; 6]; eth_destination := [255; 255; 255; 255; 255; 255]; eth_ether_type := 2048 |}.
+Example C08_Eth_ex_wf : wf_eth ex1 = true. Proof. vm_compute. reflexivity. Qed.
+Example C08_Eth_ex_bytes : eth_to_bytes ex1 = [255; 255; 255; 255; 255; 255; 1; 2; 3; 4; 5; 6; 8; 0].
+Proof. vm_compute. reflexivity. Qed.
+Example C08_Eth_ex_dec : eth_from_slice [255; 255; 255; 255; 255; 255; 1; 2; 3; 4; 5; 6; 8; 0; 9] = Ok (ex1, [9]).
+Proof. vm_compute. reflexivity. Qed.
+Example C08_Eth_ex_wts : eth_write_to_slice (repeat 165 16) ex1 =
+  Ok ([255; 255; 255; 255; 255; 255; 1; 2; 3; 4; 5; 6; 8; 0; 165; 165], [165; 165]).
+Proof. vm_compute. reflexivity. Qed.
+End ETH.
+
+(* ------------------------------------------------------------------ SingleVlanHeader *)
+Module VLAN.
+Import Roundtrip.Vlan Roundtrip.VlanProofs.
+
+Theorem C08_Vlan_ser_agree : forall h out,
+  vl_write out h = out ++ vl_to_bytes h /\ len (vl_to_bytes h) = vl_header_len h.
+Proof. exact vl_ser_agree. Qed.
+Print Assumptions C08_Vlan_ser_agree.
+
+Theorem C08_Vlan_dec_enc : forall h rest, wf_vl h = true ->
+  vl_from_slice (vl_to_bytes h ++ rest) = Ok (h, rest) /\ vl_read (vl_to_bytes h ++ rest) = Ok (h, rest)
+  /\ vl_from_bytes (vl_to_bytes h) = Ok h.
+Proof. exact vl_dec_enc. Qed.
+Print Assumptions C08_Vlan_dec_enc.
+
+Theorem C08_Vlan_enc_dec : forall bs h rest, bytes_ok bs -> vl_from_slice bs = Ok (h, rest) ->
+  wf_vl h = true /\ bs = vl_to_bytes h ++ rest /\ len (vl_to_bytes h) = 4
+  /\ vl_from_slice (vl_to_bytes h) = Ok (h, []).
+Proof. exact vl_enc_dec. Qed.
+Print Assumptions C08_Vlan_enc_dec.
+
+(* IEEE 802.1Q TCI: PCP * 2^13 + DEI * 2^12 + VID *)
+Theorem C08_Vlan_spec : forall h, wf_vl h = true ->
+  vl_to_bytes h = vlan_layout (vl_pcp h) (vl_drop_eligible_indicator h) (vl_vlan_id h) (vl_ether_type h).
+Proof. exact vl_spec. Qed.
+Print Assumptions C08_Vlan_spec.
+
+Definition ex_max : SingleVlanHeader :=
+  {| vl_pcp := 7; vl_drop_eligible_indicator := true; vl_vlan_id := 4095; vl_ether_type := 65535 |}.
+Example C08_Vlan_ex_wf : wf_vl ex_max = true. Proof. vm_compute. reflexivity. Qed.
+Example C08_Vlan_ex_bytes : vl_to_bytes ex_max = [255; 255; 255; 255]. Proof. vm_compute. reflexivity. Qed.
+Example C08_Vlan_ex_dec : vl_from_slice [176; 5; 8; 0; 9] =
+  Ok ({| vl_pcp := 5; vl_drop_eligible_indicator := true; vl_vlan_id := 5; vl_ether_type := 2048 |}, [9]).
+Proof. vm_compute. reflexivity. Qed.
+End VLAN.
+
+(* ------------------------------------------------------------------ LinuxSllHeader *)
+Module SLL.
+Import Roundtrip.Sll Roundtrip.SllProofs.
+
+Theorem C08_Sll_ser_agree : forall h out slice, wf_sll h = true ->
+  sll_write out h = out ++ sll_to_bytes h /\ len (sll_to_bytes h) = sll_header_len h
+  /\ (16 <= len slice -> sll_write_to_slice slice h = Ok (sll_to_bytes h ++ drop 16 slice, drop 16 slice))
+  /\ (len slice < 16 -> sll_write_to_slice slice h = Err ELen).
+Proof. exact sll_ser_agree. Qed.
+Print Assumptions C08_Sll_ser_agree.
+
+(* wf_sll = field ranges (packet type <= 7) + the protocol type variant belongs to the ARP hardware
+   id, which is one of the five supported ones; LinuxNonstandardEtherType holds one of its constants *)
+Theorem C08_Sll_dec_enc : forall h rest, wf_sll h = true ->
+  sll_from_slice (sll_to_bytes h ++ rest) = Ok (h, rest) /\ sll_read (sll_to_bytes h ++ rest) = Ok (h, rest)
+  /\ sll_from_bytes (sll_to_bytes h) = Ok h.
+Proof. exact sll_dec_enc. Qed.
+Print Assumptions C08_Sll_dec_enc.
+
+Theorem C08_Sll_enc_dec : forall bs h rest, bytes_ok bs -> sll_from_slice bs = Ok (h, rest) ->
+  wf_sll h = true /\ bs = sll_to_bytes h ++ rest /\ len (sll_to_bytes h) = 16
+  /\ sll_from_slice (sll_to_bytes h) = Ok (h, []).
+Proof. exact sll_enc_dec. Qed.
+Print Assumptions C08_Sll_enc_dec.
+
+(* values in range but with a protocol type variant that does not belong to the hardware id do
+   NOT survive: the decoder rejects them or returns a different value *)
+Theorem C08_Sll_inconsistent_not_roundtrip : forall h rest, sll_in_range h = true -> sll_consistent h = false ->
+  forall h' rest', sll_from_slice (sll_to_bytes h ++ rest) = Ok (h', rest') -> h' <> h.
+Proof. exact sll_inconsistent_not_roundtrip. Qed.
+Print Assumptions C08_Sll_inconsistent_not_roundtrip.
+
+Theorem C08_Sll_spec : forall h, sll_to_bytes h =
+  sll_layout (sll_packet_type h) (sll_arp_hrd_type h) (sll_sender_address_valid_length h)
+             (sll_sender_address h) (sll_protocol_u16 (sll_protocol_type h)).
+Proof. exact sll_spec. Qed.
+Print Assumptions C08_Sll_spec.
+
+Definition ex_eth : LinuxSllHeader :=
+  {| sll_packet_type := 4; sll_arp_hrd_type := 1; sll_sender_address_valid_length := 6;
+     sll_sender_address := [1; 2; 3; 4; 5; 6; 0; 0]; sll_protocol_type := SllEtherType 2048 |}.
+Definition ex_nonstd : LinuxSllHeader :=
+  {| sll_packet_type := 7; sll_arp_hrd_type := 1; sll_sender_address_valid_length := 65535;
+     sll_sender_address := repeat 255 8; sll_protocol_type := SllNonstd 250 |}.
+Definition ex_netlink : LinuxSllHeader :=
+  {| sll_packet_type := 0; sll_arp_hrd_type := 824; sll_sender_address_valid_length := 0;
+     sll_sender_address := repeat 0 8; sll_protocol_type := SllNetlink 65535 |}.
+(* in range but inconsistent: Ethernet hardware id with an `Ignored` protocol type / unsupported id *)
+Definition ex_bad1 : LinuxSllHeader :=
+  {| sll_packet_type := 0; sll_arp_hrd_type := 1; sll_sender_address_valid_length := 0;
+     sll_sender_address := repeat 0 8; sll_protocol_type := SllIgnored 5 |}.
+Definition ex_bad2 : LinuxSllHeader :=
+  {| sll_packet_type := 0; sll_arp_hrd_type := 6; sll_sender_address_valid_length := 0;
+     sll_sender_address := repeat 0 8; sll_protocol_type := SllEtherType 2048 |}.
+Example C08_Sll_ex_wf : wf_sll ex_eth = true /\ wf_sll ex_nonstd = true /\ wf_sll ex_netlink = true
+  /\ sll_in_range ex_bad1 = true /\ wf_sll ex_bad1 = false /\ sll_in_range ex_bad2 = true /\ wf_sll ex_bad2 = false.
+Proof. repeat split; vm_compute; reflexivity. Qed.
+Example C08_Sll_ex_bytes : sll_to_bytes ex_eth = [0; 4; 0; 1; 0; 6; 1; 2; 3; 4; 5; 6; 0; 0; 8; 0].
+Proof. vm_compute. reflexivity. Qed.
+Example C08_Sll_inconsistent_refuted :
+  sll_from_slice (sll_to_bytes ex_bad1) =
+    Ok ({| sll_packet_type := 0; sll_arp_hrd_type := 1; sll_sender_address_valid_length := 0;
+           sll_sender_address := repeat 0 8; sll_protocol_type := SllNonstd 5 |}, [])
+  /\ sll_from_slice (sll_to_bytes ex_bad2) = Err (EContent 1).
+Proof. split; vm_compute; reflexivity. Qed.
+End SLL.
+
+(* ------------------------------------------------------------------ ArpPacket / ArpEthIpv4Packet *)
+Module ARP.
+Import Roundtrip.Arp Roundtrip.ArpProofs.
+
+Theorem C08_Arp_ser_agree : forall h out, wf_arp h = true ->
+  exists e, arp_to_bytes h = Some e /\ arp_write out h = Some (out ++ e) /\ len e = arp_packet_len h.
+Proof. exact arp_ser_agree. Qed.
+Print Assumptions C08_Arp_ser_agree.
+
+(* every well-formed packet (all address sizes 0..255, stale initialised bytes behind the
+   addresses after set_hw_addrs/set_protocol_addrs), any trailing bytes; from_slice returns no
+   remainder: skipping packet_len bytes leaves `rest` *)
+Theorem C08_Arp_dec_enc : forall h rest, wf_arp h = true ->
+  exists e, arp_to_bytes h = Some e /\ len e = arp_packet_len h
+    /\ arp_from_slice (e ++ rest) = Ok (arp_norm h) /\ drop (arp_packet_len h) (e ++ rest) = rest
+    /\ arp_read (e ++ rest) = Ok (arp_norm h, rest) /\ arp_eqb (arp_norm h) h = true.
+Proof. exact arp_dec_enc. Qed.
+Print Assumptions C08_Arp_dec_enc.
+
+Theorem C08_Arp_enc_dec : forall bs h, bytes_ok bs -> arp_from_slice bs = Ok h ->
+  wf_arp h = true /\ arp_norm h = h /\ arp_packet_len h <= len bs
+  /\ exists e, arp_to_bytes h = Some e /\ e = take (arp_packet_len h) bs
+       /\ arp_from_slice (e ++ drop (arp_packet_len h) bs) = Ok h.
+Proof. exact arp_enc_dec. Qed.
+Print Assumptions C08_Arp_enc_dec.
+
+Theorem C08_Arp_spec : forall h, wf_arp h = true ->
+  arp_to_bytes h = Some (arp_layout (arp_hw_addr_type h) (arp_proto_addr_type h) (arp_operation h)
+                                    (arp_sh h) (arp_sp h) (arp_th h) (arp_tp h)).
+Proof. exact arp_spec. Qed.
+Print Assumptions C08_Arp_spec.
+
+(* the Ethernet/IPv4 view *)
+Theorem C08_ArpEthIpv4_ser_agree : forall v, wf_ae v = true ->
+  exists p, ae_to_arp_packet v = Some p /\ wf_arp p = true /\ arp_to_bytes p = Some (ae_to_bytes v)
+            /\ len (ae_to_bytes v) = 28 /\ arp_try_eth_ipv4 p = Ok v.
+Proof. exact ae_ser_agree. Qed.
+Print Assumptions C08_ArpEthIpv4_ser_agree.
+
+Theorem C08_ArpEthIpv4_dec_enc : forall v rest, wf_ae v = true ->
+  exists p, arp_from_slice (ae_to_bytes v ++ rest) = Ok p /\ arp_try_eth_ipv4 p = Ok v
+            /\ drop 28 (ae_to_bytes v ++ rest) = rest.
+Proof. exact ae_dec_enc. Qed.
+Print Assumptions C08_ArpEthIpv4_dec_enc.
+
+Theorem C08_ArpEthIpv4_enc_dec : forall bs p v, bytes_ok bs -> arp_from_slice bs = Ok p ->
+  arp_try_eth_ipv4 p = Ok v -> wf_ae v = true /\ 28 <= len bs /\ ae_to_bytes v = take 28 bs.
+Proof. exact ae_enc_dec. Qed.
+Print Assumptions C08_ArpEthIpv4_enc_dec.
+
+Definition ex_v : ArpEthIpv4Packet :=
+  {| ae_operation := 1; ae_sender_mac := [1; 2; 3; 4; 5; 6]; ae_sender_ipv4 := [10; 0; 0; 1];
+     ae_target_mac := [0; 0; 0; 0; 0; 0]; ae_target_ipv4 := [10; 0; 0; 2] |}.
+Definition ex_stale : ArpPacket :=
+  {| arp_hw_addr_type := 65535; arp_proto_addr_type := 65535; arp_hw_addr_size := 1; arp_proto_addr_size := 0;
+     arp_operation := 65535; arp_sender_hw_addr_buf := [7; 170; 170]; arp_sender_protocol_addr_buf := [170];
+     arp_target_hw_addr_buf := [8; 170]; arp_target_protocol_addr_buf := [] |}.
+Example C08_Arp_ex_wf : wf_ae ex_v = true /\ wf_arp ex_stale = true. Proof. split; vm_compute; reflexivity. Qed.
+Example C08_Arp_ex_bytes : ae_to_bytes ex_v =
+  [0; 1; 8; 0; 6; 4; 0; 1; 1; 2; 3; 4; 5; 6; 10; 0; 0; 1; 0; 0; 0; 0; 0; 0; 10; 0; 0; 2]
+  /\ arp_to_bytes ex_stale = Some [255; 255; 255; 255; 1; 0; 255; 255; 7; 8].
+Proof. split; vm_compute; reflexivity. Qed.
+Example C08_Arp_ex_dec : exists p, arp_from_slice (ae_to_bytes ex_v ++ [9]) = Ok p /\ arp_try_eth_ipv4 p = Ok ex_v.
+Proof. eexists. split; vm_compute; reflexivity. Qed.
+End ARP.
+
+(* ------------------------------------------------------------------ Ipv4Extensions *)
+Module EXTS4.
+Import Roundtrip.Auth Roundtrip.AuthProofs Roundtrip.Exts4 Roundtrip.Exts4Proofs.
+
+(* the only serialiser is write(start_ip_number); `x4_linked`: the authentication header is present
+   exactly when the start number announces it (set_next_headers establishes this, property C12) *)
+Theorem C08_Exts4_ser_agree : forall e out start, wf_x4 e = true -> x4_linked start e = true ->
+  exists b, x4_write out e start = Ok (out ++ b) /\ len b = x4_header_len e
+            /\ match x4_auth e with Some h => ah_to_bytes h = Some b | None => b = [] end.
+Proof. exact x4_ser_agree. Qed.
+Print Assumptions C08_Exts4_ser_agree.
+
+Theorem C08_Exts4_dec_enc : forall e start rest, wf_x4 e = true -> x4_linked start e = true ->
+  exists b, x4_write [] e start = Ok b
+    /\ x4_from_slice start (b ++ rest) = Ok (x4_norm e, x4_final start e, rest)
+    /\ x4_read (b ++ rest) start = Ok (x4_norm e, x4_final start e, rest)
+    /\ x4_eqb (x4_norm e) e = true.
+Proof. exact x4_dec_enc. Qed.
+Print Assumptions C08_Exts4_dec_enc.
+
+(* reserved: bytes 2-3 of the authentication header *)
+Theorem C08_Exts4_enc_dec : forall start bs e n rest, bytes_ok bs -> x4_from_slice start bs = Ok (e, n, rest) ->
+  wf_x4 e = true /\ x4_norm e = e /\ x4_linked start e = true /\ n = x4_final start e
+  /\ exists b, x4_write [] e start = Ok b /\ bs = take (x4_header_len e) bs ++ rest
+       /\ agree (x4_keep_mask e) b (take (x4_header_len e) bs)
+       /\ x4_from_slice start (b ++ rest) = Ok (e, n, rest).
+Proof. exact x4_enc_dec. Qed.
+Print Assumptions C08_Exts4_enc_dec.
+
+Definition ex_some : Ipv4Extensions := {| x4_auth := Some AUTH.ex_stale |}.
+Example C08_Exts4_ex : wf_x4 ex_some = true /\ x4_linked 51 ex_some = true
+  /\ x4_write [] ex_some 51 = Ok [6; 2; 0; 0; 0; 0; 0; 1; 0; 0; 0; 2; 1; 2; 3; 4]
+  /\ x4_write [] ex_some 6 = Err (EContent 0)
+  /\ x4_from_slice 17 [1; 2; 3] = Ok ({| x4_auth := None |}, 17, [1; 2; 3]).
+Proof. repeat split; vm_compute; reflexivity. Qed.
+End EXTS4.
